@@ -17,7 +17,7 @@ func init() {
 		ID:      "C14",
 		Run:     runC14,
 		NeedSSA: true,
-		Level:   "Static analysis (syntax + go/ssa effect and alias rules). Decides: atomic/messageXid — every reference to the id counter is &messageXid passed directly to sync/atomic.AddUint32 (one atomic read-modify-write), and the generated header's Xid is that call's result; globals/<var> — no function other than package initialisation stores into any package-level variable, into a map or array held by one, or through a pointer loaded from one (every package-level variable of the module gets the rule automatically); registry-ro — pointers loaded from the field registry are neither written through, retained, nor returned; noscratch — no sync.Pool and no function-level state that outlives a call. With these, goroutines working on independent values share only an atomic counter and read-only tables. Not decided: races inside third-party or standard packages; races on values the caller itself shares between goroutines.",
+		Level:   "Static analysis (syntax + go/ssa effect and alias rules). Decides: atomic/messageXid — every reference to the id counter is &messageXid passed directly to sync/atomic.AddUint32 (one atomic read-modify-write), and the generated header's Xid is that call's result; globals/<var> — no function other than package initialisation stores into any package-level variable, into a map or array held by one, or through a pointer loaded from one (every package-level variable of the module gets the rule automatically); registry-ro — pointers loaded from the field registry are neither written through, retained, nor returned; noscratch — no sync.Pool and no function-level state that outlives a call. With these, goroutines working on independent values share only an atomic counter and read-only tables. Not decided: races inside third-party or standard packages; races on values the caller itself shares between goroutines. Also decided: handoff (the C10 typestate rule): a frame buffer has one owner at a time and returns to the pool exactly once on every path.",
 		Assumptions: []string{
 			"sync/atomic.AddUint32 is an atomic read-modify-write that returns the new value (Go memory model)",
 			"third-party and standard packages are race-free when used from different goroutines on different values",
